@@ -2,6 +2,7 @@ package keyvalue
 
 import (
 	"context"
+	"errors"
 	"io"
 	"path"
 	"time"
@@ -294,8 +295,15 @@ func (f *file) writeBlobAt(op string, p blob.Blob, off int64) (n int, err error)
 	if f.fileData == nil {
 		return 0, f.closedErr(op)
 	}
+	if f.Mode().IsDir() {
+		return 0, &hackpadfs.PathError{Op: op, Path: f.path, Err: hackpadfs.ErrIsDir}
+	}
 	if f.flag&hackpadfs.FlagAppend != 0 {
 		off = int64(f.Size())
+	}
+	if off < 0 {
+		// reject before growing the file, a failed write must leave the contents unchanged
+		return 0, &hackpadfs.PathError{Op: op, Path: f.path, Err: errors.New("negative offset")}
 	}
 
 	endIndex := off + int64(p.Len())
